@@ -177,6 +177,9 @@ func c10Open(kind string) *c10Fix {
 		must("commitDpos view "+strconv.Itoa(int(c10View(e))), e.Call(c10Gov, governance.COMMIT_DPOS, nil, adm))
 	}
 	fx.root = e
+	if c10FixExt != nil {
+		c10FixExt(fx)
+	}
 	return fx
 }
 
